@@ -95,6 +95,9 @@ func (stageComp) Corpus() [][]string {
 	return [][]string{
 		// single file, one part, delivered
 		{"base ?", "recover 0", "prepare a 3 0", "recv a - - 3 b1.2.3 0 3 1.2.3 0", "observe", "settle 0", "observe", "status a 0 0", "received a - - b1.2.3 0 0 3 0", "scan"},
+		// "how many of these parts did you receive": only the LEADING parts count (second part arrived, first did not)
+		{"base ?", "recover 0", "prepare big 4 0", "recv big - - 4 b1.2.3.4 2 4 3.4 0", "receivedn 0 big - - b1.2.3.4 0 0 2 ;; big - - b1.2.3.4 0 2 4",
+			"receivedn 0 big - - b1.2.3.4 0 2 4 ;; big - - b1.2.3.4 0 0 2", "recv big - - 4 b1.2.3.4 0 2 1.2 0", "receivedn 0 big - - b1.2.3.4 0 0 2 ;; big - - b1.2.3.4 0 2 4", "settle 0", "observe"},
 		// two parts out of order, wrong hash -> failed, then resent correctly
 		{"base ?", "recover 0", "prepare f 4 0", "recv f - - 4 b9.9.9.9 2 4 3.4 0", "scan", "recv f - - 4 b9.9.9.9 0 2 1.2 0", "settle 0", "observe", "status f 0 0",
 			"prepare f 4 0", "recv f - - 4 b1.2.3.4 0 2 1.2 0", "recv f - - 4 b1.2.3.4 2 4 3.4 0", "settle 0", "observe", "status f 0 0"},
@@ -203,6 +206,24 @@ func (stageComp) Generate(r *Rand, tier string, n int) [][]string {
 			if r.Chance(0.15) {
 				b, e := x.f.cuts[x.i], x.f.cuts[x.i+1]
 				ops = append(ops, fmt.Sprintf("received %s %s %s %s 0 %d %d 0", esc(x.f.name), esc(x.f.renamed), esc(x.f.prev), esc(x.f.hash), b, e))
+			}
+			if r.Chance(0.15) {
+				// the recovery question after a failed request: a bin of 2-4 parts, some arrived, some not
+				k := r.Range(2, 4)
+				var qs []string
+				for j := 0; j < k; j++ {
+					y := sched[r.Intn(len(sched))]
+					if j > 0 && r.Chance(0.5) && si+j < len(sched) {
+						y = sched[si+j] // parts that are still to come
+					} else if r.Chance(0.5) {
+						y = sched[r.Intn(si+1)] // parts that arrived
+					}
+					qs = append(qs, fmt.Sprintf("%s %s %s %s 0 %d %d", esc(y.f.name), esc(y.f.renamed), esc(y.f.prev), esc(y.f.hash), y.f.cuts[y.i], y.f.cuts[y.i+1]))
+				}
+				if r.Chance(0.5) {
+					r.Shuffle(len(qs), func(a, b int) { qs[a], qs[b] = qs[b], qs[a] })
+				}
+				ops = append(ops, "receivedn 0 "+strings.Join(qs, " ;; "))
 			}
 			if r.Chance(0.25) {
 				ops = append(ops, "settle 0")
